@@ -1,6 +1,9 @@
-(* C08-F3 (fixed by a2ba426; [fixed = false] is the pinned pre-fix code) — the window-span bookkeeping of tsk_treeseq_pair_coalescence_stat
-   (c/tskit/trees.c 9441-9447, 9525-9592) used by span_normalise, against the documented
-   "span of non-missing sequence in the window".  Executable definitions only. *)
+(* C08-F3 (fixed by a2ba426; [fixed = false] is the pinned pre-fix code) — the window-span
+   bookkeeping of tsk_treeseq_pair_coalescence_stat (c/tskit/trees.c 9441-9447, 9525-9592)
+   used by span_normalise, against the documented "span of non-missing sequence in the
+   window".  The C window cursor `w` into `windows[]` is rendered as the suffix of the
+   breakpoint list starting at windows[w] (so windows[w] / windows[w+1] are the first two
+   elements).  Executable definitions only. *)
 From Coq Require Import List ZArith QArith Qminmax Bool Lia.
 From TskVerif Require Import C08.Model.
 Import ListNotations.
@@ -9,34 +12,36 @@ Open Scope Q_scope.
 (* a tree of the sequence: interval and whether it has no edges at all (num_edges == 0) *)
 Record ptree := mkpt { p_left : Q; p_right : Q; p_empty : bool }.
 
-(* `while (w < num_windows && windows[w + 1] <= right)`: 9530, 9585-9592 *)
-Fixpoint pcc_flush (fixed : bool) (fuel : nat) (ws : list Q) (w : nat) (right : Q) (empty : bool)
-         (missing : Q) (acc : list Q) : nat * Q * list Q :=
-  match fuel with
-  | O => (w, missing, acc)
-  | S f =>
-      if Nat.ltb (S w) (length ws) && Qle_bool (nth (S w) ws 0) right then
-        let span0 := nth (S w) ws 0 - nth w ws 0 - missing in
-        let rem := right - nth (S w) ws 0 in
+(* `while (w < num_windows && windows[w + 1] <= right)`: 9530, 9585-9592.
+   Returns (spans of the flushed windows, remaining suffix, missing_span). *)
+Fixpoint pcc_flush (fixed : bool) (ws : list Q) (right : Q) (empty : bool) (missing : Q)
+  : list Q * list Q * Q :=
+  match ws with
+  | a :: ((b :: _) as t) =>
+      if Qle_bool b right then
+        let span0 := b - a - missing in                     (* window_span = w[w+1]-w[w]-missing_span *)
+        let rem := right - b in                             (* remaining_span *)
         (* repaired: window_span += remaining_span;  pinned: window_span -= remaining_span *)
         let span := if empty then (if fixed then span0 + rem else span0 - rem) else span0 in
-        let missing' := if empty then rem else 0 in                  (* missing_span = 0; += remaining *)
-        pcc_flush fixed f ws (S w) right empty missing' (acc ++ [span])
-      else (w, missing, acc)
+        let missing' := if empty then rem else 0 in         (* missing_span = 0; += remaining *)
+        let '(out, rest, m) := pcc_flush fixed t right empty missing' in
+        (span :: out, rest, m)
+      else ([], ws, missing)
+  | _ => ([], ws, missing)
   end.
 
-Fixpoint pcc_code_spans_go (fixed : bool) (trees : list ptree) (ws : list Q) (w : nat) (missing : Q) (acc : list Q) : list Q :=
+Fixpoint pcc_code_spans_go (fixed : bool) (trees : list ptree) (ws : list Q) (missing : Q) : list Q :=
   match trees with
-  | [] => acc
+  | [] => []
   | t :: rest =>
       let missing1 := if p_empty t then missing + (p_right t - p_left t) else missing in   (* 9525-9527 *)
-      let '(w', m', acc') := pcc_flush fixed (length ws) ws w (p_right t) (p_empty t) missing1 acc in
-      pcc_code_spans_go fixed rest ws w' m' acc'
+      let '(out, ws', m') := pcc_flush fixed ws (p_right t) (p_empty t) missing1 in
+      out ++ pcc_code_spans_go fixed rest ws' m'
   end.
 Definition pcc_code_spans (trees : list ptree) (ws : list Q) : list Q :=
-  pcc_code_spans_go true trees ws 0 0 [].
+  pcc_code_spans_go true trees ws 0.
 Definition pcc_code_spans_pinned (trees : list ptree) (ws : list Q) : list Q :=
-  pcc_code_spans_go false trees ws 0 0 [].
+  pcc_code_spans_go false trees ws 0.
 
 (* documented: span of the window covered by trees that have edges *)
 Definition nonmissing_span (trees : list ptree) (a b : Q) : Q :=
